@@ -679,7 +679,10 @@ def run(tier):
                     plan = [("trunc", k, 0) for k in range(len(base))]
                     plan += [("ext", len(base), v) for v in ((65, 61, 10, 120) if layer == "pem" else (0, 255, 48))]
                     npos = len(base)
-                    if th or npos <= 72:
+                    # one explicit-parameter encoding with a compressed base point is damaged at EVERY position in the quick tier
+                    # too (its decoder runs the curve arithmetic on damaged parameters: square roots modulo a damaged prime etc.)
+                    full_quick = (cname == "NIST256p" and label == "spki/explicit/compressed")
+                    if th or npos <= 72 or full_quick:
                         positions = range(npos)
                     else:
                         positions = sorted(set(range(24)) | set(r.sample(range(24, npos), 48)))
@@ -691,6 +694,8 @@ def run(tier):
                             vals = [b ^ 1, b ^ 0x80, 0, 0x7F, 0xFF, (b + 1) & 255]
                             if th:
                                 vals += [(b - 1) & 255, 0x30, 0x80, 0x81, 0x05, r.randrange(256), r.randrange(256), r.randrange(256)]
+                            elif full_quick:
+                                vals += [0x05, 0x0D, (b - 1) & 255]
                         seen = set()
                         for v in vals:
                             if v != b and v not in seen:
